@@ -158,6 +158,9 @@ def check_c13(o):
             return f'asked for {k} which the input file already supplied'
     if len(set(f['asked'])) != len(f['asked']):
         return f'an input was asked for twice in one session: {f["asked"]}'
+    again = [k for k in s['asked'] if k in f['given']]
+    if again and 'after_error' not in o:
+        return f'with write-back, the re-run asks again for {again}, answered in the previous session (which ended: {f["ended"]})'
     if f['solved'] and f['ended'] == 'returned':
         if s['asked']:
             return f'after a completed run with write-back the re-run asks for {s["asked"]}'
